@@ -17,7 +17,7 @@ VARIABLES hist,   \* operations performed so far, with the outcome the spec expe
           rep     \* replication index: gives rare actions more weight in the
                   \* simulator's uniform choice among successor states
 
-svars == <<files, ref, okm, hist, rep>>
+svars == <<files, ref, okm, fresh, touched, hist, rep>>
 
 SimInit == Init /\ hist = <<>> /\ rep = 0
 
@@ -27,19 +27,22 @@ Entry(e, ok) ==
      q |-> IF e.op \in {"copy", "move"} THEN e.q ELSE <<>>,
      key |-> IF e.op \in {"set_attr", "del_attr"} THEN e.key ELSE "",
      v |-> IF e.op \in {"set_attr", "set_dataset"} THEN e.v ELSE "",
+     k |-> IF e.op = "set_elem" THEN e.k ELSE 0,
+     b |-> IF e.op = "set_elem" THEN e.b ELSE 0,
      ok |-> ok]
 
-AllOps == Ops \cup CopyOps
+AllOps == Ops \cup CopyOps \cup ElemOps
+Expected(e) == H5!Apply(ref, e).ok /\ H5!PatchAllows(e, fresh, touched)
 
-(* every operation the reference accepts *)
+(* every operation the specification expects to succeed *)
 OkOp ==
-    /\ \E e \in AllOps : H5!Apply(ref, e).ok /\ Do(e) /\ hist' = Append(hist, Entry(e, TRUE))
+    /\ \E e \in AllOps : Expected(e) /\ Do(e) /\ hist' = Append(hist, Entry(e, TRUE))
     /\ rep' = 0
 
 (* refused operations: only a few per state, or they would drown the rest *)
 FailOp ==
-    /\ \E e \in AllOps : /\ ~H5!Apply(ref, e).ok
-                          /\ e.op \in {"create_group", "delete", "del_attr", "copy"}
+    /\ \E e \in AllOps : /\ ~Expected(e)
+                          /\ e.op \in {"create_group", "delete", "del_attr", "copy", "set_elem", "copy_into_patch"}
                           /\ Len(e.p) = 1
                           /\ Do(e) /\ hist' = Append(hist, Entry(e, FALSE))
     /\ rep' = 0
@@ -48,7 +51,7 @@ SimBoundary ==
     /\ Len(files) < MaxFiles
     /\ Boundary
     /\ hist' = Append(hist, [op |-> "boundary", p |-> <<>>, q |-> <<>>, key |-> "",
-                             v |-> "", ok |-> TRUE])
+                             v |-> "", k |-> 0, b |-> 0, ok |-> TRUE])
     /\ rep' \in 1..BoundaryWeight
 
 SimNext == OkOp \/ FailOp \/ SimBoundary
